@@ -535,3 +535,72 @@ func GoID() int64 {
 	}
 	return -1
 }
+
+// LoadProbe measures how late a sleeping goroutine of this process is woken up while a case runs: the
+// overshoot of a 2 ms sleep. It is the harness's evidence that a configured client-side timeout (100-200 ms)
+// may have expired because the machine was busy, not because of the code under test.
+type LoadProbe struct {
+	stop chan struct{}
+	done chan struct{}
+	max  time.Duration
+}
+
+func StartLoadProbe() *LoadProbe {
+	p := &LoadProbe{stop: make(chan struct{}), done: make(chan struct{})}
+	go func() {
+		defer close(p.done)
+		for {
+			select {
+			case <-p.stop:
+				return
+			default:
+			}
+			t0 := time.Now()
+			time.Sleep(2 * time.Millisecond)
+			if d := time.Since(t0) - 2*time.Millisecond; d > p.max {
+				p.max = d
+			}
+		}
+	}()
+	return p
+}
+
+// Stop ends the probe and returns the largest overshoot seen.
+func (p *LoadProbe) Stop() time.Duration {
+	close(p.stop)
+	<-p.done
+	return p.max
+}
+
+// LoadTolerant wraps a property whose oracle contains a client-side timeout that a well-behaved peer must
+// not trip. A failure is reported only if it is reproducible without measured scheduling delays: a failing
+// evaluation during which the probe saw a wake-up later than maxLate is repeated (up to 3 times); if every
+// failing attempt was disturbed the case is counted as inconclusive (class inconclusive_machine_load, not a
+// pass of the oracle; the driver turns a high share of such cases into exit 2). An undisturbed failing
+// attempt is a failure. Passing attempts are never questioned.
+func LoadTolerant[C any](maxLate time.Duration, prop func(C, *Obs) error) func(C, *Obs) error {
+	return func(c C, o *Obs) error {
+		var err error
+		for attempt := 0; attempt < 3; attempt++ {
+			o2 := &Obs{}
+			p := StartLoadProbe()
+			err = Guard(func() error { return prop(c, o2) })
+			late := p.Stop()
+			if err == nil {
+				*o = *o2
+				if attempt > 0 {
+					o.Class("passed_on_retry_after_machine_load")
+				}
+				return nil
+			}
+			if late <= maxLate {
+				*o = *o2
+				return err
+			}
+			time.Sleep(time.Duration(50*(attempt+1)) * time.Millisecond)
+		}
+		o.Class("inconclusive_machine_load")
+		o.Note("inconclusive", err.Error())
+		return nil
+	}
+}
